@@ -214,10 +214,21 @@ impl ChemicalCompositionMap<'_> {
     /// be faster as it skips element specification parsing and
     /// [`PeriodicTable`](crate::PeriodicTable) lookup.
     pub fn get_str(&self, elt: &str) -> i32 {
-        match self.composition.get(elt) {
+        match self.find_str(elt) {
             Some(c) => *c,
             None => 0,
         }
+    }
+
+    /// Find the count of the plain (no fixed isotope) entry whose symbol is `elt`.
+    ///
+    /// The map cannot be probed with a bare `&str`: keys hash and borrow as their
+    /// symbol only, so such a probe may land on a fixed-isotope entry of the same element.
+    fn find_str(&self, elt: &str) -> Option<&i32> {
+        self.composition
+            .iter()
+            .find(|(k, _)| k.isotope == 0 && k.element.symbol == elt)
+            .map(|(_, v)| v)
     }
 
     /**
@@ -236,7 +247,10 @@ impl ChemicalCompositionMap<'_> {
     */
     pub fn get_str_mut(&mut self, elt: &str) -> Option<&mut i32> {
         self.mass_cache = None;
-        self.composition.get_mut(elt)
+        self.composition
+            .iter_mut()
+            .find(|(k, _)| k.isotope == 0 && k.element.symbol == elt)
+            .map(|(_, v)| v)
     }
 
     /// Increment of quantity of an element by its symbol string,
@@ -279,7 +293,7 @@ impl Index<&str> for ChemicalCompositionMap<'_> {
     #[inline]
     fn index(&self, key: &str) -> &Self::Output {
         match ElementSpecification::quick_check_str(key) {
-            ElementSpecificationLike::Yes => self.composition.get(key).unwrap_or(&ZERO),
+            ElementSpecificationLike::Yes => self.find_str(key).unwrap_or(&ZERO),
             ElementSpecificationLike::No => &ZERO,
             ElementSpecificationLike::Maybe => {
                 let spec = key.parse::<ElementSpecification>();
